@@ -9,7 +9,7 @@
 From Coq Require Import ZArith List Bool.
 From LV Require Import Ws.WsDefs Ws.Base64Defs Ws.Sha1Defs Ws.WsSpecDefs Ws.WsDecoderModel Ws.WsEncoderModel Ws.WsHandshakeModel
   Ws.WsTransparency Ws.WsRefuted Ws.WsPartial Ws.Base64Proofs Ws.WsDecoderProofs4 Ws.WsDecoderProofs6
-  Ws.WsEncoderProofs Ws.WsStrictProofs Ws.WsHandshakeProofs Ws.WsSafetyProofs Ws.WsDrainProofs Gen.Consts_C09 Gen.Strs_C09.
+  Ws.WsEncoderProofs Ws.WsStrictProofs Ws.WsHandshakeProofs Ws.WsSafetyProofs Ws.WsDrainProofs Ws.WsProgressProofs Gen.Consts_C09 Gen.Strs_C09.
 Import ListNotations.
 Local Open Scope Z_scope.
 
@@ -30,6 +30,31 @@ Example C09_transparent_nonvacuous :
   delivered (fst (fst (ws_run true ws_init (mkIO (conv_stream wit_conv) wit_sched_eagain) wit_lens))) = conv_expected wit_conv.
 Proof. vm_compute. repeat split; reflexivity. Qed.
 
+(* ---- progress: with a reader that always has at least one byte to give (every scheduled event RAvail k,
+   k >= 1), three events per call and |stream| + |application data| calls, ALL application data has been
+   delivered.  (C09_transparent alone would be satisfied by a decoder that never consumes anything.) ---- *)
+Theorem C09_progress : forall cs sched lens,
+  conv_valid None cs = true -> all_avail sched = true -> lens_ok lens = true ->
+  (3 * length lens <= length sched)%nat ->
+  zlen (conv_stream cs) + zlen (conv_expected cs) <= Z.of_nat (length lens) ->
+  delivered (fst (fst (ws_run true ws_init (mkIO (conv_stream cs) sched) lens))) = conv_expected cs.
+Proof. exact progress_fixed. Qed.
+
+Example C09_progress_nonvacuous :
+  conv_valid None wit_conv = true /\ all_avail (repeat (RAvail 1) 1230) = true /\ lens_ok (repeat 3 410) = true /\
+  zlen (conv_stream wit_conv) + zlen (conv_expected wit_conv) = 408.
+Proof. vm_compute. repeat split; reflexivity. Qed.
+
+(* ---- restriction of the base64 mode, stated and witnessed (finding C09-F24, both decoder variants):
+   conv_valid requires every fragment of a text message to be a base64 string of its own; an RFC-valid text
+   message fragmented elsewhere is lost silently ---- *)
+Theorem C09_text_fragment_split_refuted :
+  b64_pton [81; 85; 74; 68] 10 = Some [65; 66; 67] /\
+  (forall fx, let '(rs, w', i') := ws_run fx ws_init (mkIO (encode_frames split_frames) avail6) [100; 100; 100; 100; 100; 100] in
+     delivered rs = [] /\ forallb call_ok rs = true /\ io_stream i' = [] /\ at_boundary w' = true) /\
+  (forall fx, delivered (fst (fst (ws_run fx ws_init (mkIO (encode_frames whole_frame) avail6) [100; 100]))) = [65; 66; 67]).
+Proof. exact text_split_lost. Qed.
+
 (* The decoder of the snapshot violates the same statement (DESIGN section 7, F3):
      forall cs sched lens, conv_valid None cs = true -> sched_live sched = true -> lens_ok lens = true ->
        transparent_b false cs sched lens = true
@@ -39,17 +64,6 @@ Theorem C09_transparent_refuted :
     conv_valid None cs = true /\ sched_live sched = true /\ lens_ok lens = true /\
     transparent_b false cs sched lens = false.
 Proof. exact transparent_refuted. Qed.
-
-(* ... and holds on the inputs on which the snapshot decoder never takes a repaired branch *)
-Theorem C09_transparent_partial : forall cs sched lens,
-  conv_valid None cs = true -> sched_live sched = true -> lens_ok lens = true ->
-  defect_free cs sched lens -> transparent_b false cs sched lens = true.
-Proof. exact transparent_partial. Qed.
-
-Example C09_transparent_partial_nonvacuous :
-  conv_valid None wit_conv = true /\ sched_live [RAvail 4096; RAvail 4096; RAvail 4096; RAvail 4096] = true /\
-  lens_ok [100; 100; 300] = true /\ defect_free wit_conv [RAvail 4096; RAvail 4096; RAvail 4096; RAvail 4096] [100; 100; 300].
-Proof. exact transparent_partial_nonvacuous. Qed.
 
 (* the snapshot decoder hands SIZE_MAX to the read callback on a header delivered as 6+1+1 bytes *)
 Theorem C09_read_request_refuted :
@@ -110,6 +124,12 @@ Theorem C09_strict : forall cont w b0 b1 rest sched lens,
   end.
 Proof. exact strict_two_byte_violations. Qed.
 
+(* ... and the violation IS reported: with bytes available, EPROTO comes within two calls *)
+Theorem C09_strict_progress : forall cont w b0 b1 rest sched l1 l2 lens,
+  BD w cont -> bad2 cont b0 b1 = true -> all_avail sched = true -> (4 <= length sched)%nat ->
+  first_hard (fst (fst (ws_run true w (mkIO (b0 :: b1 :: rest) sched) (l1 :: l2 :: lens)))) = Some (CRet (-1) (Some EPROTO) []).
+Proof. exact strict_progress. Qed.
+
 Example C09_strict_nonvacuous :
   BD ws_init None /\ bad2 None 130 5 = true /\ bad2 None 9 128 = true /\ bad2 None 128 133 = true /\
   first_hard (fst (fst (ws_run true ws_init (mkIO [130; 5; 1; 2; 3; 4; 5] [RAvail 1; RAgain; RAvail 1; RAvail 9]) [10; 10; 10; 10])))
@@ -167,6 +187,16 @@ Theorem C09_write_chunks : forall b64 l, bytes_ok l = true ->
   Forall (fun ch => zlen ch <= ws_update_buf_size /\ (l <> [] -> 1 <= zlen ch)) (chunks (length l) l).
 Proof. exact ws_write_chunks. Qed.
 
+(* composite: what rfbWriteExact hands to write() parses (strict RFC 6455 parser) into exactly one final unmasked
+   frame per UPDATE_BUF_SIZE chunk, whose payload is the chunk itself (binary) or its canonical RFC 4648
+   encoding b64_enc (text: syntactic equality, no lenient decoder involved), and the chunks concatenate to l *)
+Theorem C09_write_parses_back : forall b64 l, bytes_ok l = true -> l <> [] ->
+  exists out, ws_write b64 l = Some out /\
+    parse_stream out = Some (map (out_frame b64) (chunks (length l) l)) /\
+    concat (chunks (length l) l) = l /\
+    Forall (fun ch => 1 <= zlen ch <= ws_update_buf_size) (chunks (length l) l).
+Proof. exact write_parses_back. Qed.
+
 (* ---- base64 ---- *)
 Theorem C09_base64_roundtrip : forall d ts1 ts2 t,
   bytes_ok d = true -> b64_ntop d ts1 = Some t -> zlen d < ts2 -> b64_pton t ts2 = Some d.
@@ -207,7 +237,7 @@ Theorem C09_handshake_answer : forall st key,
 Proof. exact hs_finish_answer. Qed.
 
 Example C09_handshake_answer_nonvacuous :
-  ws_handshake ascii_req =
+  ws_handshake false ascii_req =
   HsOk (Some [47; 119; 115]) true (hs_proto_0 ++ rfc_accept ++ hs_proto_1 ++ s_base64 ++ hs_proto_2).
 Proof. exact handshake_example. Qed.
 
@@ -217,10 +247,12 @@ Proof. exact handshake_example. Qed.
    >= 1: repeating decode calls while has_data holds ends within readlen calls with has_data = false, does not
    touch the socket (reader state unchanged: the buffered bytes are invisible to select(), so a loop that
    blocks while has_data holds leaves them undelivered until the peer sends something else), and hands out
-   exactly the readlen buffered bytes, every call returning data. *)
+   exactly the readlen buffered bytes, every call returning at least one byte (call_data, never EAGAIN).
+   This is a statement about the decoder under the loop discipline [drain]; the C loops themselves
+   (sockets.c rfbCheckFds, main.c clientInput) are not modelled, see the differential server runs. *)
 Theorem C09_drain_complete : forall w i len, G w -> 1 <= len ->
   let '(rs, w', i') := drain (Z.to_nat (w_readlen w)) w i len in
-  has_data w' = false /\ i' = i /\ G w' /\ forallb call_ok rs = true /\
+  has_data w' = false /\ i' = i /\ G w' /\ forallb call_data rs = true /\
   zlen (delivered rs) = Z.max 0 (w_readlen w) /\ zlen rs <= Z.max 0 (w_readlen w).
 Proof. exact drain_complete. Qed.
 
